@@ -437,6 +437,43 @@ class CallMixin:
         txt = (c.flags.get("emits") or "").strip()
         return [x.strip() for x in txt.split(",") if x.strip()]
 
+    def footprint(self, f):
+        """Operations the body of f may perform (transitively): inferred by executing f once, memoised per process.
+        None = unknown (outside the subset / recursive): callers then havoc every counter they care about."""
+        cache = self.prog.__dict__.setdefault("_footprints", {})
+        if f.full in cache:
+            return cache[f.full]
+        cache[f.full] = None   # in progress (recursion) => unknown
+        try:
+            from .verify import Verifier
+            v = Verifier(self.prog, self.cfg)
+            v.verify(f)
+            fp = set(x for x in v.events_seen if not x.startswith("select.arm:"))
+            if getattr(v, "footprint_unknown", False):
+                fp = None
+        except Exception:
+            fp = None
+        cache[f.full] = fp
+        return fp
+
+    def callee_events(self, f, st):
+        """Counters a modular call of f may change: its declared `emits` plus the inferred footprint of its body;
+        restricted to operations some clause can observe (the tracked set and the current function's own clauses)."""
+        care = set(self.tracked_events()) if hasattr(self, "tracked_events") else set()
+        c = getattr(self.cur_func, "contract", None)
+        if c is not None:
+            import re as _re
+            for cl in c.clauses:
+                care |= set(_re.findall(r'zz(?:Calls|Seq|Arg|Ret|Recv)(?:\[[^\]]*\])?\("([^"]+)"', cl.get("text") or ""))
+        names = set(self.contract_emits(f))
+        fp = self.footprint(f)
+        if fp is None:
+            self.footprint_unknown = True
+            names |= care | set(k[3:] for k in st.ghost if isinstance(k, str) and k.startswith("ev:"))
+        else:
+            names |= fp
+        return sorted(n for n in names if n in care and not n.startswith("select.arm:"))
+
     def contract_modifies(self, f):
         c = f.contract
         if c is None or (not c.clauses and not c.flags):
@@ -736,7 +773,7 @@ class CallMixin:
         self.trace_event(st, self.prog.short(f.full))
         post.ghost = dict(st.ghost)
         emitted_any = False
-        for nm in self.contract_emits(f):
+        for nm in self.callee_events(f, st):
             key = "ev:" + nm
             cur = post.ghost.get(key)
             if cur is None:
